@@ -189,6 +189,9 @@ def releaseOwn (s : State) : State :=
   let p := admit (s.free + 1) s.st
   { s with st := p.2, free := p.1 }
 
+/-- online: `self._exception = e` (the pool is shut down) -/
+def withExc (s : State) (e : Nat) : State := { s with exc := some e }
+
 /-- the helper returns the results in submission order; `WithoutSemaphore.__aexit__` has re-acquired the caller's permit; the
 caller leaves its block -/
 def returnNow (s : State) : State :=
@@ -234,7 +237,7 @@ def step (s : State) : Op → Option State
         | .raise e =>
           -- `self._exception = exc; await asyncio.shield(self._shutdown())`: every pending task (this one included) is
           -- cancelled, `self._pending = None`, `self._done_event.set()`
-          let s2 := { cancelFirst s1 s1.st.length with exc := some e }
+          let s2 := withExc (cancelFirst s1 s1.st.length) e
           match s.helper with
           | .exiting =>
             -- `__aexit__` wakes after the cancelled tasks have run, re-acquires and raises `self._exception`
@@ -249,7 +252,7 @@ def step (s : State) : Op → Option State
         -- `__aexit__(exc_val)`: `self._exception = exc_val; await self._shutdown()` cancels every pending task; the event is
         -- already set and the permit just released is free, so `__aexit__` raises WITHOUT yielding to the loop: the cancelled
         -- tasks have not run yet when the caller sees the exception
-        some (raiseNow { cancelFirst s s.st.length with exc := some e } e (nNotDone s.st) false)
+        some (raiseNow (withExc (cancelFirst s s.st.length) e) e (nNotDone s.st) false)
       | _, some e0 =>
         -- a task failed during the body: the pool is already shut down; a body exception is logged and discarded
         some (raiseNow s e0 0 false)
